@@ -23,6 +23,7 @@ bash $OUT/demo.sh /repo > $OUT/demo_without.log 2>&1; DO=$?
 echo "exit=$DO"
 cd /verif
 RES=""
+touch $OUT/.stamp
 git -C /repo apply $OUT/patch.diff || { echo "PATCH DOES NOT APPLY"; exit 2; }
 for c in $CHECKS; do
   echo "== quick check $c with change applied"
@@ -33,7 +34,7 @@ for c in $CHECKS; do
 done
 git -C /repo checkout -- .
 # keep replay files produced by the mutant out of the committed replay tier
-git -C /verif status --short replays | awk '{print $2}' | while read f; do mkdir -p $OUT/replays; mv /verif/$f $OUT/replays/ 2>/dev/null; done
+find /verif/replays -type f -newer $OUT/.stamp | while read f; do mkdir -p $OUT/replays; mv $f $OUT/replays/ 2>/dev/null; done
 find /verif/replays -type d -empty -delete 2>/dev/null
 echo "RESULT $NAME ctest='$CT' demo_with=$DW demo_without=$DO checks:$RES"
 cat > $OUT/meta.json <<EOM
